@@ -81,7 +81,7 @@ func fmtLaplacian(b *built, l spectral.Laplacian) string {
 
 // runEverything calls every routine of the property on b and returns the
 // results as canonical strings keyed by the call.
-func runEverything(b *built) map[string]string {
+func runEverything(t *vlib.T, b *built) map[string]string {
 	sp := b.sp
 	out := map[string]string{}
 	try := func(name string, f func() string) {
@@ -97,10 +97,18 @@ func runEverything(b *built) map[string]string {
 			try("PageRank", func() string { vrand.Reset(nil); return fmtNodeMap(network.PageRank(d, 0.85, 1e-8)) })
 			try("PageRankSparse", func() string { vrand.Reset(nil); return fmtNodeMap(network.PageRankSparse(d, 0.85, 1e-8)) })
 		}
-		if sp.edges() > 0 {
+		if sp.edges() > 0 || sp.n == 0 || !hitsHangs {
 			try("HITS", func() string {
 				var sb strings.Builder
-				ha := network.HITS(d, 1e-10)
+				var ha map[int64]network.HubAuthority
+				if sp.edges() > 0 || sp.n == 0 {
+					ha = network.HITS(d, 1e-10)
+				} else {
+					var ok bool
+					if ha, ok = hitsGuarded(t, d, 1e-10); !ok {
+						return "no termination"
+					}
+				}
 				for _, id := range b.ids {
 					fmt.Fprintf(&sb, "%d:%v ", id, ha[id])
 				}
@@ -220,8 +228,8 @@ func genLazyIterators(g *vlib.G) {
 			idx := idx
 			idKind, order := idx%3, (idx/3)%nOrders
 			g.Case(fmt.Sprintf("%s#%d %s %s", s.name(), idx, idMapNames[idKind], orderNames[order]), func(t *vlib.T) {
-				exact := runEverything(build(s.spec(idx), idKind, order, contSimple))
-				lazy := runEverything(build(s.spec(idx), idKind, order, contLazy))
+				exact := runEverything(t, build(s.spec(idx), idKind, order, contSimple))
+				lazy := runEverything(t, build(s.spec(idx), idKind, order, contLazy))
 				calls := 0
 				for _, name := range vlib.SortedKeys(exact) {
 					calls++
